@@ -181,7 +181,7 @@ Proof.
                     exists s2 rows es, run_msgs gfixed t s ms es0 = Some (s2, rows, es) /\ Inv t s2 /\ EffsOk t es /\
                       forallb (fun '(ra, rb, _) => forallb (reply_ok t) ra && forallb (reply_ok t) rb) rows = true /\
                       LeH (d_have s) (d_have s2) /\ find_peer (d_peers s2) pid_b = None /\ all_have s2 = true).
-        { clear. intros ms. induction ms as [|m ms IH]; intros s es0 HI He Hb Ha; simpl.
+        { clear - WF. intros ms. induction ms as [|m ms IH]; intros s es0 HI He Hb Ha; simpl.
           - exists s, [], es0. split; [reflexivity|]. split; [exact HI|]. split; [exact He|]. split; [reflexivity|].
             split; [apply LeH_refl | split; assumption].
           - destruct (step_good t WF s pid_a m HI) as [a [E [GI GE]]]. rewrite E.
@@ -200,9 +200,11 @@ Proof.
             assert (Hrow : forallb (reply_ok t) (sends_to pid_a (a_eff a)) = true) by now apply sends_ok.
             rewrite Hb'. simpl.
             destruct (negb match find_peer (d_peers (a_st a)) pid_a with Some _ => true | None => false end).
-            + do 3 eexists. split; [reflexivity|]. repeat split; auto. simpl. now rewrite Hrow.
+            + do 3 eexists. split; [reflexivity|]. split; [exact GI|]. split; [exact E0|].
+              split; [simpl; rewrite Hrow; reflexivity|]. split; [exact Hle|]. split; [exact Hb' | exact Ha'].
             + destruct (IH (a_st a) (es0 ++ a_eff a) GI E0 Hb' Ha') as [s2 [rows [es [R [I2 [O2 [W2 [L2 [B2 A2]]]]]]]]].
-              rewrite R. do 3 eexists. split; [reflexivity|]. repeat split; auto; [simpl; now rewrite Hrow|eapply LeH_trans; eauto]. }
+              rewrite R. do 3 eexists. split; [reflexivity|]. split; [exact I2|]. split; [exact O2|].
+              split; [simpl; rewrite Hrow; exact W2|]. split; [eapply LeH_trans; eauto|]. split; assumption. }
         destruct (R ms (a_st a) (es0 ++ a_eff a) GI E0 HB1 HB4) as [s2 [rows [es [R2 [I2 [O2 [W2 [L2 [B2 A2]]]]]]]]].
         rewrite R2. do 3 eexists. split; [reflexivity|]. split; [exact I2|]. split; [exact O2|].
         split; [simpl; rewrite Hrow; exact W2|]. split; [eapply LeH_trans; eauto|]. right. repeat split; auto.
@@ -301,7 +303,7 @@ Proof.
   destruct (add_b t WF have bfull Hl) as [ab [Eb [[IB EB] [Hbh [Hbf [Hbn Hba]]]]]].
   unfold run_case. rewrite Eb. cbv zeta.
   set (qa := if h_dup h then pid_b else pid_a).
-  pose proof (handshake_good t WF (a_st ab) qa h IB Hwf) as HH.
+  pose proof (handshake_good t (a_st ab) qa h IB Hwf) as HH.
   pose proof (sends_ok t pid_b (a_eff ab) EB) as Hbinit.
   assert (Hprobe : forall hv, zlen hv = t_n t ->
             (zlen (map (fun b : bool => if b then 2 else 1) hv) =? t_n t) &&
@@ -339,7 +341,7 @@ Proof.
                      | Some (l, s) => (l =? t_n t) && forallb (in_range t) s
                      | None => true end = true).
     { destruct (find_peer (d_peers s2) pid_a) as [b|] eqn:Ef; [|reflexivity].
-      assert (Hc : clean (t_n t) b = true) by (eapply find_peer_clean; eauto).
+      assert (Hc : clean (t_n t) b = true) by exact (find_peer_clean t s2 pid_a b I2 Ef).
       pose proof Hc as Hc'. apply clean_spec in Hc'. destruct Hc' as [C1 _]. rewrite C1, Z.eqb_refl. simpl.
       apply forallb_forall. intros i Hi. apply in_range_iff. eapply clean_idx; eauto. }
     rewrite Habits. cbn [andb].
